@@ -453,14 +453,16 @@ Section CINV.
     end.
 
   (* directories whose content the operation may change: the source (not for clone, which only reads
-     it) and the destination unless it exists beforehand (a collision: then it belongs to another job
+     it) and the destination unless it is occupied beforehand (a collision: then it belongs to another job
      and must stay as it is) *)
   Definition affected (o : cop) (f0 : fs) : list path :=
     let s := src_dir o in
     let d := dst_dir o f0 in
     match o with
     | KClone _ _ _ => if exists_ f0 d then [] else [d]
-    | KRekey _ _ _ | KMove _ _ _ => if path_eqb s d || exists_ f0 d then [s] else [s; d]
+    | KRekey _ _ _ | KMove _ _ _ =>
+        (* os.replace onto an EMPTY directory succeeds: only a non-empty destination is a collision *)
+        if path_eqb s d || has_children f0 d || isfile f0 d then [s] else [s; d]
     | _ => [s]
     end.
 
